@@ -3,12 +3,14 @@
     (Credential, GIDMappings, GIDMappingsEnableSetgroups, empty Groups, NoSetGroups, DropCaps, NoNewPrivs, Seccomp,
     Ptrace, StopBeforeSeccomp, SyncFunc, UnshareCgroupAfterSync) and every setting of the nine others
     (CLONE_NEWUSER, CLONE_NEWPID, CLONE_NEWNS, CTTY, PivotRoot, HostName, DomainName, WorkDir, ExecFile) listed in
-    the tier's domain (Tier.v), in sixteen shards (Sh0..Sh15) combined here; for the failing steps the
+    the tier's domain (Tier.v), in sixteen shards (Sh0..Sh15) combined here, and on the cross domain (the nine others exhaustively, the
+    twelve all off and all on); for the failing steps the
     shards listed in PRE_fates (the first four of the twelve: Credential, GIDMappings, GIDMappingsEnableSetgroups, empty Groups). *)
 From Coq Require Import List Bool ZArith.
 Import ListNotations.
 From GS Require Import Launch.ChildIR Launch.ChildSeq.
 From Gen Require Import ChildSrcGen ChildSrcBase Tier.
+From Gen Require PF_fd PL_loops PX_sh_c04 PX_sh_c05 PX_sh_c16 PX_sh_c07_calls PX_sh_c07_refusal PX_sh_c07_gate.
 From Gen Require Sh0 Sh1 Sh2 Sh3 Sh4 Sh5 Sh6 Sh7 Sh8 Sh9 Sh10 Sh11 Sh12 Sh13 Sh14 Sh15.
 
 (* "@SHARDS:lemma@" is replaced by lib/srcthm.py with one  destruct H as [<-|H]; [exact Sh<k>.lemma |]  per shard of the tier, in the
@@ -17,26 +19,26 @@ From Gen Require Sh0 Sh1 Sh2 Sh3 Sh4 Sh5 Sh6 Sh7 Sh8 Sh9 Sh10 Sh11 Sh12 Sh13 Sh1
 (** C04: the calls that set up identity, privileges, filter, session, names, working directory, cgroup namespace and
     tracing, and the clone flags, are those of the specification [child_calls], in its order *)
 Theorem C04_source_issues_specified_calls :
-  forall a b, In a (all_bits 12) -> In b DB_calls -> on_opt (check_calls_on k04) (mk a b) = true.
-Proof. apply combine16. intros pre H; cbv [all_bits map app In] in H. @SHARDS:sh_c04@ destruct H. Qed.
+  forall a b, (In a (all_bits 12) /\ In b DB_calls) \/ (In a ends_A /\ In b (all_bits 9)) -> on_opt (check_calls_on k04) (mk a b) = true.
+Proof. intros a b [[Ha Hb]|[Ha Hb]]; [| exact (cross_ok_spec _ PX_sh_c04.sh_c04 a b Ha Hb)]. revert a b Ha Hb. apply combine16. intros pre H; cbv [all_bits map app In] in H. @SHARDS:sh_c04@ destruct H. Qed.
 Print Assumptions C04_source_issues_specified_calls.
 
 (** C05: the mounts around the caller's list (private root, tmpfs root, pivot, read-only root) *)
 Theorem C05_source_issues_specified_calls :
-  forall a b, In a (all_bits 12) -> In b DB_calls -> on_opt (check_calls_on k05) (mk a b) = true.
-Proof. apply combine16. intros pre H; cbv [all_bits map app In] in H. @SHARDS:sh_c05@ destruct H. Qed.
+  forall a b, (In a (all_bits 12) /\ In b DB_calls) \/ (In a ends_A /\ In b (all_bits 9)) -> on_opt (check_calls_on k05) (mk a b) = true.
+Proof. intros a b [[Ha Hb]|[Ha Hb]]; [| exact (cross_ok_spec _ PX_sh_c05.sh_c05 a b Ha Hb)]. revert a b Ha Hb. apply combine16. intros pre H; cbv [all_bits map app In] in H. @SHARDS:sh_c05@ destruct H. Qed.
 Print Assumptions C05_source_issues_specified_calls.
 
 (** C16: a traced child asks to die with its launcher and looks for it, before it syncs or stops *)
 Theorem C16_source_issues_specified_calls :
-  forall a b, In a (all_bits 12) -> In b DB_calls -> on_opt (check_calls_on k16) (mk a b) = true.
-Proof. apply combine16. intros pre H; cbv [all_bits map app In] in H. @SHARDS:sh_c16@ destruct H. Qed.
+  forall a b, (In a (all_bits 12) /\ In b DB_calls) \/ (In a ends_A /\ In b (all_bits 9)) -> on_opt (check_calls_on k16) (mk a b) = true.
+Proof. intros a b [[Ha Hb]|[Ha Hb]]; [| exact (cross_ok_spec _ PX_sh_c16.sh_c16 a b Ha Hb)]. revert a b Ha Hb. apply combine16. intros pre H; cbv [all_bits map app In] in H. @SHARDS:sh_c16@ destruct H. Qed.
 Print Assumptions C16_source_issues_specified_calls.
 
 (** C07: the start of the child, the exchange over the sync socket and the exec *)
 Theorem C07_source_issues_specified_calls :
-  forall a b, In a (all_bits 12) -> In b DB_calls -> on_opt (check_calls_on k07) (mk a b) = true.
-Proof. apply combine16. intros pre H; cbv [all_bits map app In] in H. @SHARDS:sh_c07_calls@ destruct H. Qed.
+  forall a b, (In a (all_bits 12) /\ In b DB_calls) \/ (In a ends_A /\ In b (all_bits 9)) -> on_opt (check_calls_on k07) (mk a b) = true.
+Proof. intros a b [[Ha Hb]|[Ha Hb]]; [| exact (cross_ok_spec _ PX_sh_c07_calls.sh_c07_calls a b Ha Hb)]. revert a b Ha Hb. apply combine16. intros pre H; cbv [all_bits map app In] in H. @SHARDS:sh_c07_calls@ destruct H. Qed.
 Print Assumptions C07_source_issues_specified_calls.
 
 (** C07: whichever call of the child fails, the failure is reported with its location and the program never runs
@@ -51,15 +53,40 @@ Print Assumptions C07_source_failed_step_never_runs.
 
 (** C07: a launcher that does not approve (end of file on the sync socket, or an error code for the id maps) *)
 Theorem C07_source_refusal_never_runs :
-  forall a b, In a (all_bits 12) -> In b DB_calls -> on_opt check_refusal (mk a b) = true.
-Proof. apply combine16. intros pre H; cbv [all_bits map app In] in H. @SHARDS:sh_c07_refusal@ destruct H. Qed.
+  forall a b, (In a (all_bits 12) /\ In b DB_calls) \/ (In a ends_A /\ In b (all_bits 9)) -> on_opt check_refusal (mk a b) = true.
+Proof. intros a b [[Ha Hb]|[Ha Hb]]; [| exact (cross_ok_spec _ PX_sh_c07_refusal.sh_c07_refusal a b Ha Hb)]. revert a b Ha Hb. apply combine16. intros pre H; cbv [all_bits map app In] in H. @SHARDS:sh_c07_refusal@ destruct H. Qed.
 Print Assumptions C07_source_refusal_never_runs.
 
 (** C07: one sync write, then the read that waits for the approval, then only what must wait for it, then the one exec *)
 Theorem C07_source_gate_before_exec :
-  forall a b, In a (all_bits 12) -> In b DB_calls -> on_opt check_gate (mk a b) = true.
-Proof. apply combine16. intros pre H; cbv [all_bits map app In] in H. @SHARDS:sh_c07_gate@ destruct H. Qed.
+  forall a b, (In a (all_bits 12) /\ In b DB_calls) \/ (In a ends_A /\ In b (all_bits 9)) -> on_opt check_gate (mk a b) = true.
+Proof. intros a b [[Ha Hb]|[Ha Hb]]; [| exact (cross_ok_spec _ PX_sh_c07_gate.sh_c07_gate a b Ha Hb)]. revert a b Ha Hb. apply combine16. intros pre H; cbv [all_bits map app In] in H. @SHARDS:sh_c07_gate@ destruct H. Qed.
 Print Assumptions C07_source_gate_before_exec.
+
+(** C05 / C07 / C08: the loops over the caller's mounts and resource limits.  For each of the 130 lists of [loop_cases]
+    (every mount shape alone: 0 / 1 / 3 path components to create, directory or node as mount point, five flag words among
+    them read-only binds, four statfs answers; lists of four mounts; 0 to 3 limits), without and with a pivoted root:
+    the calls are those of [mount_calls] / [rlimit_calls] at their place in the sequence (the remount of a read-only bind
+    keeps what statfs reports of nosuid / nodev / noexec / noatime / nodiratime / relatime and nothing else); each of
+    them failing is reported with its location and the index of the entry, nothing else is done and the program never
+    runs; an existing mount point is not an error *)
+Theorem SRC_loops_as_specified :
+  forall c, In c loop_cases -> check_loops flags_plain (fst c) (snd c) = true /\ check_loops flags_rooted (fst c) (snd c) = true.
+Proof.
+  intros c Hc. pose proof PL_loops.loops_ok as H. apply andb_prop in H. destruct H as [H1 H2].
+  split; [exact (check_loops_list_spec _ _ H1 c Hc) | exact (check_loops_list_spec _ _ H2 c Hc)].
+Qed.
+Print Assumptions SRC_loops_as_specified.
+
+(** C06: the descriptor shuffle.  For each of the 4404 cases of [fd_cases] (every list of at most three entries over
+    {-1, 0, 1, 2, 3, 5, 12} x ten placements of the sync socket and the exec descriptor below / inside / above the scratch
+    area and next to each other; the same lists with a listed number that is not open; four longer lists): the dup3 / fcntl /
+    close calls the source issues, replayed on the kernel's descriptor table, leave exactly the table [FdShuffle.shuffle]
+    computes (for which C06_shuffle is proved for every list), the sync socket and the exec descriptor are where the source
+    goes on using them, still open and close-on-exec; where the kernel refuses a call of the one it refuses one of the other *)
+Theorem C06_source_shuffle_is_model : forall c, In c fd_cases -> check_fd c = true.
+Proof. exact (check_fd_list_spec _ PF_fd.fd_ok). Qed.
+Print Assumptions C06_source_shuffle_is_model.
 
 (** non-vacuity: the domain is not empty and the options of one member are what they say *)
 Example domain_member : In (repeat true 12) (all_bits 12) /\ In (repeat true 9) DB_calls /\ In (repeat true 9) DB_fates /\ In (repeat true 4) PRE_fates
